@@ -137,6 +137,47 @@ theorem batch_lookup_gap_free_partial (fuel : Nat) (c c' : Cache) (pd : PD) (ran
       · obtain ⟨l, hl, hlc⟩ := hcovU u hu' k hu1 hu2
         exact ⟨l, hb1 l hl, hlc⟩
 
+/-- BatchLocateKeyRanges without the bound on the number of request ranges, under PD's contract `PDWithin`
+    (every region PD returns for a batch scan starts before the end of one of the requested ranges — PD does not
+    answer with regions lying entirely beyond what it was asked for): whenever the call answers, the locations cover
+    every requested range.  Any sorted index, any number of uncached holes, PD rounds and ranges per call; PD may still
+    truncate its answers at the limit and return stale descriptions. -/
+theorem batch_lookup_gap_free_pd_contract_partial (fuel : Nat) (c c' : Cache) (pd : PD) (ranges : List KeyRange)
+    (ls : List Region) (hs : Sorted c.sorted) (hv : ValidRanges ranges) (hpd : PDWithin pd)
+    (h : batchLocateKeyRanges fuel c pd ranges = (c', .ok ls)) :
+    ∀ kr ∈ ranges, Covers ls kr.start kr.end_ := by
+  unfold batchLocateKeyRanges at h
+  have hA := (batchStep1_spec (fuel := fuel) (c := c) (st := ⟨none, [], []⟩) hv
+    (by intro l hl; cases hl)).2
+  have hS := batchStep1_si (fuel := fuel) hs (st := ⟨none, [], []⟩) hv
+    (by intro kr _; exact ⟨by simp [StartsSorted], by intro x hx; cases hx⟩)
+    (by simp [StartsSorted]) (by intro l hl; cases hl) (by simp [ValidRangesP]) (by intro u hu; cases hu)
+  change ∀ kr ∈ ranges, ServedBy (batchStep1 fuel c ranges).cached (batchStep1 fuel c ranges).uncached kr at hA
+  change StartsSorted ((batchStep1 fuel c ranges).cached.map (·.r)) ∧
+    ValidRangesP (batchStep1 fuel c ranges).uncached ∧
+    (batchStep1 fuel c ranges).uncached.length ≤ 0 + ranges.length at hS
+  simp only at h
+  generalize batchStep1 fuel c ranges = st at h hA hS
+  cases hb : batchStep2 fuel c pd st.uncached ⟨none, st.cached.map (·.r), []⟩ with
+  | mk c1 res =>
+    rw [hb] at h
+    cases res with
+    | error x => simp at h
+    | ok m' =>
+      simp only [Prod.mk.injEq, Except.ok.injEq] at h
+      obtain ⟨_, rfl⟩ := h
+      obtain ⟨hinv, _, hcovU⟩ := batchStep2_spec_pd hpd hb (mergerInv_init hS.1) hS.2.1
+      obtain ⟨hb1, hb2⟩ := build_covers hinv
+      intro kr hkr k hk1 hk2
+      rcases hA kr hkr k hk1 hk2 with ⟨ce, hce, hcc⟩ | ⟨u, hu', hu1, hu2⟩
+      · exact hb2 ce.r (List.mem_map.mpr ⟨ce, hce, rfl⟩) k hcc
+      · obtain ⟨l, hl, hlc⟩ := hcovU u hu' k hu1 hu2
+        exact ⟨l, hb1 l hl, hlc⟩
+
+/-- non-vacuity of `PDWithin`: it holds for the one-region layout -/
+example : PDWithin [⟨⟨1, [], none, 0, 0⟩, 1, [1, 2, 3]⟩] :=
+  pdWithin_of_starts_nil (by intro p hp; simp at hp; subst hp; rfl)
+
 def pd3 : PD :=
   [⟨⟨1, [], some [103], 1, 0⟩, 1, [1, 2, 3]⟩, ⟨⟨2, [103], some [116], 2, 0⟩, 1, [1, 2, 3]⟩, ⟨⟨3, [116], none, 1, 0⟩, 1, [1, 2, 3]⟩]
 
